@@ -24,6 +24,8 @@ pub enum TAct {
     Tcora(u8),
     Tcorb(u8),
     Tcsr(u8),
+    /// byte write to a register of the neighbouring channel 1 (TCR + offset, offset odd): nothing of channel 0 may change
+    Chan1(u8, u8),
 }
 
 impl TAct {
@@ -36,6 +38,7 @@ impl TAct {
             TAct::Tcora(v) => format!("TCORA={:02x}", v),
             TAct::Tcorb(v) => format!("TCORB={:02x}", v),
             TAct::Tcsr(v) => format!("TCSR={:02x}", v),
+            TAct::Chan1(o, v) => format!("CH1+{}={:02x}", o, v),
         }
     }
     pub fn parse(s: &str) -> Option<TAct> {
@@ -53,6 +56,7 @@ impl TAct {
             "TCORA" => TAct::Tcora(v),
             "TCORB" => TAct::Tcorb(v),
             "TCSR" => TAct::Tcsr(v),
+            x if x.starts_with("CH1+") => TAct::Chan1(x[4..].parse().ok()?, v),
             _ => return None,
         })
     }
@@ -403,6 +407,7 @@ impl TimerSys {
             TAct::Tcora(v) => (TCORA, v),
             TAct::Tcorb(v) => (TCORB, v),
             TAct::Tcsr(v) => (TCSR, v),
+            TAct::Chan1(o, v) => (TCR + o as u32, v),
             _ => unreachable!(),
         };
         self.cpu.bus.write(addr, v).map_err(|e| format!("{}: {}", a.text(), e))?;
@@ -442,7 +447,12 @@ fn runtime_actions(full: bool) -> Vec<TAct> {
         v.push(TAct::Tcr(t));
     }
     v.push(TAct::Tcsr(0x00));
+    // the other channel's control register (H'FFFF81), written as a byte: channel 0 keeps its clock, enables and phase
+    // (C17-M11: registers decoded on their word address)
+    v.push(TAct::Chan1(1, 0x03));
     if full {
+        v.push(TAct::Chan1(1, 0x00));
+        v.push(TAct::Chan1(9, 0x55));
         v.push(TAct::Tcnt(0xfe));
         v.push(TAct::Tcnt(0x00));
         v.push(TAct::Tcora(0x02));
